@@ -153,7 +153,10 @@ def server_thread(srv, cert, proxy, out):
 SSL_VERSIONS = {"absent": None, "TLS_CLIENT": ssl.PROTOCOL_TLS_CLIENT, "TLS": ssl.PROTOCOL_TLS, "TLSv1_2": ssl.PROTOCOL_TLSv1_2}
 
 
-def run_case(scheme, cert_reqs, check_hostname, trust, server_hostname, server_cert, route, ssl_version="absent", extras=None, via="connect"):
+def run_case(scheme, cert_reqs, check_hostname, trust, server_hostname, server_cert, route, ssl_version="absent", extras=None, via="connect", target="good.test"):
+    """target: the host in the URL - a name, an IPv4 literal or a bracketed IPv6 literal (the fixture certificates carry DNS names only, so a
+    certificate never matches an IP-literal target by name)."""
+    thost = target.strip("[]")
     lib.reset_globals()
     cli, srv = socket.socketpair()
     cli.close()
@@ -234,11 +237,11 @@ def run_case(scheme, cert_reqs, check_hostname, trust, server_hostname, server_c
             if via == "app":
                 # the same options through WebSocketApp.run_forever(sslopt=..., http_proxy_*=..., host=...)
                 lib.websocket.setdefaulttimeout(10)
-                _app, exc = env.open_via("app", "%s://good.test/chat" % scheme, {}, dict(opts, sslopt=sslopt))
+                _app, exc = env.open_via("app", "%s://%s/chat" % (scheme, target), {}, dict(opts, sslopt=sslopt))
             elif via == "create_connection":
-                ws = lib.websocket.create_connection("%s://good.test/chat" % scheme, timeout=10, sslopt=sslopt, **opts)
+                ws = lib.websocket.create_connection("%s://%s/chat" % (scheme, target), timeout=10, sslopt=sslopt, **opts)
             else:
-                ws.connect("%s://good.test/chat" % scheme, **opts)
+                ws.connect("%s://%s/chat" % (scheme, target), **opts)
         except Exception as e:  # noqa
             exc = e
     finally:
@@ -258,6 +261,8 @@ def run_case(scheme, cert_reqs, check_hostname, trust, server_hostname, server_c
     th.join(15)
     label = "%s cert_reqs=%s check_hostname=%s trust=%s server_hostname=%s server_cert=%s route=%s ssl_version=%s extras=%s" % (
         scheme, cert_reqs if cert_reqs == "absent" else ssl.VerifyMode(cert_reqs).name, check_hostname, trust, server_hostname, server_cert, route, ssl_version, extras)
+    if target != "good.test":
+        label += " target=%s" % target
     if via != "connect":
         label += " [through %s]" % ("WebSocketApp.run_forever" if via == "app" else via)
     if th.is_alive():
@@ -295,14 +300,15 @@ def run_case(scheme, cert_reqs, check_hostname, trust, server_hostname, server_c
             config_error = False
             verify_name = eff_check
         trusts_ca = trust in ("ca_certs", "ca_cert_path", "env-file", "env-dir")
-    expected_name = server_hostname if server_hostname != "absent" else "good.test"
+    expected_name = server_hostname if server_hostname != "absent" else thost
     chain_ok = ca_signed and trusts_ca
     name_ok = cert_name == expected_name
     accept = (not config_error) and (chain_ok or not verify_chain) and (name_ok or not verify_name)
     fb = out.get("first_bytes", b"")
     if not config_error and fb[:2] != b"\x16\x03":
         return (dict(sig, kind="not-tls-from-first-byte"), "%s: first bytes on the stream are %r, expected a TLS ClientHello" % (label, fb))
-    if route == "proxy" and not (out.get("connect_request", b"").startswith(b"CONNECT good.test:443 ")):
+    if route == "proxy" and not (out.get("connect_request", b"").startswith(("CONNECT %s:443 " % (target if ":" not in thost else thost)).encode())) and not (
+            ":" in thost and out.get("connect_request", b"").startswith(("CONNECT %s:443 " % target).encode())):
         return (dict(sig, kind="proxy-connect"), "%s: CONNECT request %r" % (label, out.get("connect_request")))
     if accept:
         if exc is not None:
@@ -355,6 +361,12 @@ def run_task(desc):
             run("wss", cr, chk, trust, sh, sc, route)
             if route == "direct":
                 run("wss", cr, chk, trust, sh, sc, route, "absent", None, "app" if k % 2 else "create_connection")
+        # IP-literal targets: the certificate (issued for a DNS name) never matches them by name
+        if not trust.startswith("context"):
+            for tgt in ("192.0.2.7", "[2001:db8::7]"):
+                for chk, sh, sc in itertools.product(CHECK_HOST, SERVER_HOSTNAME[:2], SERVER_CERT[:2]):
+                    for route in ROUTES:
+                        run("wss", cr, chk, trust, sh, sc, route, "absent", None, "connect", tgt)
         # the documented ssl_version option must not change what is verified
         if not trust.startswith("context"):
             for sv in ("TLS_CLIENT", "TLS", "TLSv1_2"):
